@@ -22,6 +22,8 @@ What is proved here, for all inputs:
                          pre-D42 minimum over all rows (`minAll_offset_counterexample`; `QuaToSM` now uses the first rule);
 * `content_carried`      (link 2, from C08) for each of the 17 generated converter entries a successful conversion returns
                          one chart per source chart with the same hits / holds / tempo rows, columns shifted by the argument;
+* `contentOk_abstract`, `convert_write_qua_objects_partial`  links 2 + 3 chained over `AChart` for Quaver targets (all 17
+                         converter entries): the written document carries the SOURCE chart's hits and holds;
 * `into_qua_objects_partial`  (link 3 for Quaver, from C06 `qua_write_denotes`) the written document's denotation has the
                          chart's hits and holds, every head and tail within the `ms` resolution.  `_partial`: the tempo
                          timeline of the written document is `quantize`d too (C06), but that the *normalised* timelines pair
@@ -32,6 +34,7 @@ the parts' theorems; they are stated over the parts' own model types and are not
 (the embedding of each format's chart into C08's frames is the missing glue).
 -/
 import Reamber.Lemmas.Pipeline
+import Reamber.Lemmas.PipelineConv
 import Reamber.Generated.SMTables
 import Reamber.Generated.PipelineTables
 import Reamber.Generated.Converters
@@ -230,5 +233,53 @@ theorem into_qua_objects_partial (c : Qua.Chart) (d : Qua.Doc) (hm : Qua.MetaOk 
     have ht : (Qua.truncI h.offset : Rat) + ((Qua.truncI (h.offset + h.length) : Rat) - (Qua.truncI h.offset : Rat)) =
         (Qua.truncI (h.offset + h.length) : Rat) := by linarith
     simp [closeHold, Qua.Spec.qHold, closeTime_ms_trunc, ht]
+
+/-! ## links 2 + 3 chained: convert, then write as Quaver (all converters, all sources) -/
+
+theorem paired_of_perm_left {α β} (R : α → β → Prop) (as as₂ : List α) (bs : List β) (hp : as.Perm as₂)
+    (h : Paired R as bs) : Paired R as₂ bs := by
+  obtain ⟨as', bs', h1, h2, hz⟩ := h
+  exact ⟨as', bs', h1.trans hp, h2, hz⟩
+
+/-- non-vacuity of the content link on abstract charts: a two-hit, one-hold source map and its conversion shifted by 1 -/
+example :
+    let fh : Convert.Frame := ⟨[5, 2], [("offset", [.num 10, .num 20]), ("column", [.num 0, .num 3])]⟩
+    let fl : Convert.Frame := ⟨[0], [("offset", [.num 30]), ("column", [.num 1]), ("length", [.num 500])]⟩
+    let fb : Convert.Frame := ⟨[0], [("offset", [.num 0]), ("bpm", [.num 120])]⟩
+    let th : Convert.Frame := ⟨[0, 1], [("offset", [.num 20, .num 10]), ("column", [.num 4, .num 1])]⟩
+    let tl : Convert.Frame := ⟨[0], [("offset", [.num 30]), ("column", [.num 2]), ("length", [.num 500])]⟩
+    Convert.contentOk 1 ⟨[("hits", fh), ("holds", fl), ("bpms", fb)], [], ""⟩ ⟨th, tl, fb, none, []⟩ = true ∧
+    (ofTChart ⟨th, tl, fb, none, []⟩).hits = [(20, 4), (10, 1)] := by decide +kernel
+
+/-- the in-memory Quaver chart holds exactly the hit and hold rows of the converted frames (the representation glue
+between C08's frames and C06's chart type: the reader side of a `QuaMap` is its list frames) -/
+def Represents (qc : Qua.Chart) (t : Convert.TChart) : Prop :=
+  (ofQua qc).hits = (ofTChart t).hits ∧ (ofQua qc).holds = (ofTChart t).holds
+
+/-- **convert, then write as Quaver** (C08 `converters_spec` + C06 `qua_write_denotes`, chained over `AChart`): for each
+of the 17 generated converter entries, every well-formed source (any row labels, any number of charts) and shift
+argument, every source chart `m` with its converted chart `t`, and every Quaver chart `qc` that holds `t`'s rows and is
+written successfully: the written document has a denotation, and that denotation carries the hits and holds of the
+SOURCE chart `m` — columns moved by the shift argument only, every head and tail less than 1 ms away.
+`_partial`: objects only (tempo timeline evaluated, not proved), and the reader link (file → `m`) and the
+frames ↔ chart representation (`Represents`) are hypotheses. -/
+theorem convert_write_qua_objects_partial : ∀ c ∈ Generated.converters,
+    ∀ (src : Convert.Src) (k : Int) (out : Convert.Out),
+    Convert.srcOk Convert.tables c src = true → Convert.convert Convert.tables c src k = .ok out →
+    ∀ p ∈ src.maps.zip out.pairs, ∀ (qc : Qua.Chart) (d : Qua.Doc),
+      Represents qc p.2.2 → Qua.MetaOk qc.info → Qua.Spec.ksLists qc = true → Qua.write qc = .ok d →
+      ∃ c', Qua.Spec.denote d = .ok c' ∧
+        ObjectsClose 0 .ms false 0 (shiftCols (Convert.effShift c k) (ofSrcMap p.1)) (ofQua c') := by
+  intro c hc src k out hsrc hconv p hp qc d hrep hm hk hw
+  have hcontent : (src.maps.zip out.pairs).all (fun p => Convert.contentOk (Convert.effShift c k) p.1 p.2.2) = true :=
+    (Convert.converters_spec c hc src k out hsrc hconv).2.1
+  have hp' := List.all_eq_true.mp hcontent p hp
+  obtain ⟨hh, hl, _⟩ := contentOk_abstract _ _ _ hp'
+  obtain ⟨c', hden, hobj⟩ := into_qua_objects_partial qc d hm hk hw
+  refine ⟨c', hden, ?_, ?_⟩
+  · have := paired_of_perm_left _ _ _ _ (hrep.1 ▸ hh) hobj.1
+    exact this
+  · have := paired_of_perm_left _ _ _ _ (hrep.2 ▸ hl) hobj.2
+    exact this
 
 end Reamber.Pipeline
